@@ -393,8 +393,26 @@ def check_pre(run, db):
                     dom = f.dominators()
                     if b['succ'] and b['succ'][0] in dom.get(e.block, set()):
                         guarded = True
+            # by effect: a whole block as the arena / the collection's reserve routine returned it (B.memory, B.size), or the
+            # caller's own (pointer, size) parameters passed on unchanged (the obligation travels to the caller)
+            whole = False
+            try:
+                for steps in fwd.trace(f, roles={}, db=db):
+                    for st in steps:
+                        tt = st.get('t') if st['kind'] == 'ev' else None
+                        if isinstance(tt, dict) and tt.get('k') == 'call' and tt.get('id') == t.get('id') and tt.get('short') == 'insert':
+                            a0, a1 = sym.canon(tt['args'][0]), sym.canon(tt['args'][1])
+                            if a0.endswith('.memory') and a1.endswith('.size') and a0[:-7] == a1[:-5] and ('allocate_block()' in a0 or 'reserve_memory(' in a0):
+                                whole = True
+            except sym.PathLimit:
+                pass
+            fwd_params = all(sym.strip_casts(a).get('k') == 'param' for a in t['args'])
             if guarded:
                 run.ok('R-PRE', inst, t.get('loc', f.loc), 'size compared with the list\'s minimum before the call')
+            elif whole:
+                run.ok('R-PRE', inst, t.get('loc', f.loc), 'a whole block as obtained from the arena / reserve_memory (>= the minimum by the constructor contract)')
+            elif fwd_params and f.kind != 'ctor' and cls_template(f.cls) in ('memory_pool', 'memory_pool_collection'):
+                run.ok('R-PRE', inst, t.get('loc', f.loc), 'forwards its own (pointer, size) parameters: the obligation is the caller\'s')
             elif sn in INSERT_CONTRACT:
                 run.ok('R-PRE', inst, t.get('loc', f.loc), 'by contract: ' + INSERT_CONTRACT[sn])
             else:
